@@ -2,6 +2,7 @@ package props
 
 import (
 	"bytes"
+	"errors"
 	"fmt"
 	"io"
 
@@ -29,18 +30,29 @@ type C12Case struct {
 	Src int `json:",omitempty"`
 	// DictCap of the ReaderConfig (0 = default): the reader's own capacity must not matter
 	DictCap int `json:",omitempty"`
+	// Stutter = k+1: the source answers the first Read that starts at file offset k with (0, error)
+	// once (a transient failure that consumes nothing); the caller calls Read again (up to three
+	// times). The end of the data may then be reported only for what the file really contains.
+	Stutter int `json:",omitempty"`
 }
+
+var errStutter = errors.New("transient source failure (injected)")
 
 // modeSource is a deterministic io.Reader (not an io.ByteReader) with a fixed fragmentation.
 type modeSource struct {
-	data []byte
-	pos  int
-	mode int
+	data    []byte
+	pos     int
+	mode    int
+	stutter int // offset+1 of the one transient failure, 0: none
 }
 
 func (m *modeSource) Read(p []byte) (int, error) {
 	if len(p) == 0 {
 		return 0, nil
+	}
+	if m.stutter > 0 && m.pos == m.stutter-1 {
+		m.stutter = 0
+		return 0, errStutter
 	}
 	rem := len(m.data) - m.pos
 	if rem == 0 {
@@ -61,17 +73,29 @@ func (m *modeSource) Read(p []byte) (int, error) {
 	return n, nil
 }
 
-func xzDecodeSrc(data []byte, dictCap int, single bool, mode int) (out []byte, err error, proto string, pan *core.PanicInfo) {
-	if mode == 0 {
+func xzDecodeSrc(data []byte, dictCap int, single bool, mode int, stutter ...int) (out []byte, err error, proto string, pan *core.PanicInfo) {
+	st := 0
+	if len(stutter) > 0 {
+		st = stutter[0]
+	}
+	if mode == 0 && st == 0 {
 		return xzDecode(data, dictCap, single)
 	}
 	pan = core.Guard(func() {
 		var rd *xz.Reader
-		rd, err = xz.ReaderConfig{DictCap: dictCap, SingleStream: single}.NewReader(&modeSource{data: data, mode: mode})
+		rd, err = xz.ReaderConfig{DictCap: dictCap, SingleStream: single}.NewReader(&modeSource{data: data, mode: mode, stutter: st})
 		if err != nil {
 			return
 		}
 		out, err, proto = readAll(rd, 4096, 256<<20)
+		for retry := 0; retry < 3 && st > 0 && errors.Is(err, errStutter) && proto == ""; retry++ {
+			// the caller calls Read again after the transient failure (not after an error of the
+			// reader itself: the xz reader keeps no sticky error, a Read after "unexpected data"
+			// answers io.EOF on the unchanged tree as well - the error has been reported by then)
+			var more []byte
+			more, err, proto = readAll(rd, 4096, 256<<20)
+			out = append(out, more...)
+		}
 	})
 	return
 }
@@ -190,12 +214,15 @@ func c12Case(r *core.Run, menu []Stream, p C12Case) {
 	}
 	cs := core.MkCase("C12", "concat", p)
 	want, wantErr := c12Expect(menu, p)
-	out, err, proto, pan := xzDecodeSrc(data, p.DictCap, p.Single, p.Src)
+	out, err, proto, pan := xzDecodeSrc(data, p.DictCap, p.Single, p.Src, p.Stutter)
 	var names []string
 	for _, s := range p.Streams {
 		names = append(names, menu[s].Name)
 	}
 	desc := fmt.Sprintf("streams=%v lead=%d pads=%v trailing=%d single=%v poke=%v source-mode=%d ReaderConfig.DictCap=%d", names, p.Lead, p.Pads, p.Trailing, p.Single, p.Poke, p.Src, p.DictCap)
+	if p.Stutter > 0 {
+		desc += fmt.Sprintf("; the source fails once (0 bytes, error) at file offset %d of %d and the caller calls Read again", p.Stutter-1, len(data))
+	}
 	cls := errClass(err)
 	// site: what distinguishes the layout
 	site := fmt.Sprintf("n=%d single=%v", len(p.Streams), p.Single)
@@ -228,13 +255,15 @@ func c12Case(r *core.Run, menu []Stream, p C12Case) {
 		r.Violate(cs, "xzR concat "+site+" → accepted", desc, fmt.Sprintf("%d bytes then %s", len(out), cls), "an error")
 	case wantErr && !bytes.HasPrefix(want, out) && !p.Single:
 		r.Violate(cs, "xzR concat "+site+" → wrong-bytes-before-error", desc, fmt.Sprintf("%d bytes", len(out)), "a prefix of the expected content")
+	case !wantErr && p.Stutter > 0 && cls != "EOF" && cls != "nil" && bytes.HasPrefix(want, out):
+		// after a source failure the reader may stay in an error state: nothing wrong was accepted
 	case !wantErr && (cls != "EOF" || !bytes.Equal(out, want)):
 		r.Violate(cs, "xzR concat "+site+" → rejected-or-wrong", desc, fmt.Sprintf("%d bytes then %s, first difference at %d", len(out), errStr(err), firstDiff(out, want)), fmt.Sprintf("%d bytes then io.EOF", len(want)))
 	}
 	if p.Single && !wantErr && !bytes.Equal(out, want) {
 		r.Violate(cs, "xzR concat "+site+" → wrong-content", desc, fmt.Sprintf("%d bytes", len(out)), fmt.Sprintf("%d bytes", len(want)))
 	}
-	if p.Single && wantErr && p.Lead == 0 && !bytes.Equal(out, want) && pan == nil {
+	if p.Single && wantErr && p.Lead == 0 && !bytes.Equal(out, want) && pan == nil && !(p.Stutter > 0 && bytes.HasPrefix(want, out)) {
 		// SingleStream yields exactly the first stream's content, then the error
 		r.Violate(cs, "xzR concat "+site+" → single-stream-content", desc, fmt.Sprintf("%d bytes before the error", len(out)), fmt.Sprintf("exactly the first stream's %d bytes", len(want)))
 	}
@@ -276,7 +305,7 @@ func c12Case(r *core.Run, menu []Stream, p C12Case) {
 
 func runC12(r *core.Run) {
 	menu := c12Menu()
-	r.Rule = "all lists of 1..3 streams over a base menu of 8 (plus two extended entries with uncompressed chunks and different dictionary sizes, crossed with aligned paddings; and ReaderConfig.DictCap in {default, 4096, 5000, 100000, 4 MiB}) (library-, reference- and liblzma-written; empty with one empty block and without any block; 4 check types; multi-block; 4 KiB and 64 KiB dictionaries with a far match) x 4 source modes (bytes.Reader / last bytes with io.EOF / one byte per Read / both) x padding: lists <=2: every length 0..16 between and after; lists of 3: {0,4,8} plus one misaligned; leading padding 1..8; trailing non-zero bytes (lengths 1..11); a non-zero byte at every position of a 4/8/12-byte padding group; x SingleStream on/off; oracle = 20-line reference semantics. states/transitions = stream-list automaton (start/between/error/done); non-trivial = distinct (layout class, outcome class, bytes, expectation)"
+	r.Rule = "all lists of 1..3 streams over a base menu of 8 (plus two extended entries with uncompressed chunks and different dictionary sizes, crossed with aligned paddings; and ReaderConfig.DictCap in {default, 4096, 5000, 100000, 4 MiB}) (library-, reference- and liblzma-written; empty with one empty block and without any block; 4 check types; multi-block; 4 KiB and 64 KiB dictionaries with a far match) x 4 source modes (bytes.Reader / last bytes with io.EOF / one byte per Read / both) x padding: lists <=2: every length 0..16 between and after; lists of 3: {0,4,8} plus one misaligned; leading padding 1..8; trailing non-zero bytes (lengths 1..11); a non-zero byte at every position of a 4/8/12-byte padding group; x SingleStream on/off; plus a transient source failure (0 bytes, error, once) at the end of each stream and at the start of every padding word behind it, with the caller calling Read again; oracle = 20-line reference semantics. states/transitions = stream-list automaton (start/between/error/done); non-trivial = distinct (layout class, outcome class, bytes, expectation)"
 	var cases []C12Case
 	n := c12Base // the base menu is crossed completely
 	maxPad := 16
@@ -389,11 +418,64 @@ func runC12(r *core.Run) {
 			}
 		}
 	}
+	// transient source failures between the items of the file: the source answers (0, error) once at
+	// offset k and the caller calls Read again; k = the end of each stream and the start of every
+	// 4-byte padding word behind it (where the reader has consumed nothing of the next item: a
+	// failure in the middle of an item loses the bytes already consumed on the unchanged tree too -
+	// the reader makes no promise to resume there, and none is demanded)
+	var stut []C12Case
+	for a := 0; a < 3; a++ {
+		for _, pa := range []int{0, 4, 8, 3} {
+			for _, single := range []bool{false, true} {
+				for _, tr := range []int{-1, 0xFD, 0} {
+					stut = append(stut, C12Case{Streams: []int{a}, Pads: []int{pa}, Trailing: tr, TailLen: 1, Single: single})
+					if tr != 0 {
+						stut = append(stut, C12Case{Streams: []int{a, (a + 1) % 3}, Pads: []int{pa, 4}, Trailing: tr, TailLen: 1, Single: single})
+						stut = append(stut, C12Case{Streams: []int{a, (a + 2) % 3, a}, Pads: []int{4, pa, 0}, Trailing: tr, TailLen: 1, Single: single})
+					}
+				}
+			}
+		}
+	}
+	nst := 0
+	for _, c := range stut {
+		if c.Trailing == 0 {
+			c.Trailing = -1 // plain end of file
+			c.TailLen = 0
+		} else if c.Trailing == -1 {
+			c.TailLen = 0
+		}
+		off := 0
+		total := 0
+		for i, si := range c.Streams {
+			total += len(menu[si].Data) + c.Pads[i]
+		}
+		if c.Trailing >= 0 {
+			total++
+		}
+		for i, si := range c.Streams {
+			off += len(menu[si].Data)
+			for k := off; k <= off+c.Pads[i] && k <= total; k += 4 {
+				for _, mode := range []int{0, 2} {
+					q := c
+					q.Stutter = k + 1
+					q.Src = mode
+					cases = append(cases, q)
+					nst++
+				}
+			}
+			off += c.Pads[i]
+		}
+	}
+	r.Extra("transient_failure_cases", nst)
 	// every layout with every source mode (the SingleStream probe and the padding reads see short
 	// reads and data delivered together with io.EOF)
 	base := cases
 	for mode := 1; mode <= 3; mode++ {
 		for _, c := range base {
+			if c.Stutter > 0 {
+				continue
+			}
 			c.Src = mode
 			cases = append(cases, c)
 		}
